@@ -548,3 +548,269 @@ def c17(tier, sc):
     for c in cases[100:103]:
         rep.sample({"in": show(c["in"]), "kind": c["kind"], "expect_tok": c["tok"], "resume": c["resume"]})
     return rep.finish()
+
+
+# ---------------------------------------------------------------------------
+# C02  IsXSS total; bounded recursion
+
+def run_pumps(sc, vh, cmd, cases, size, maxstack, per_case_timeout=20.0):
+    """Run pump cases in sub-processes.  Returns list of (index, 'crash'|'hang'|'panic', detail)."""
+    from concurrent.futures import ThreadPoolExecutor
+    problems = []
+    nchunks = min(vlib.NCPU, max(1, len(cases) // 50))
+    per = (len(cases) + nchunks - 1) // nchunks
+
+    def work(k):
+        a, b = k * per, min((k + 1) * per, len(cases))
+        i = a
+        while i < b:
+            fin = sc.path("pump-%d-%d.in" % (k, i))
+            write_ndjson(fin, cases[i:b])
+            status = "ok"
+            try:
+                rc, out = run([vh, cmd, fin, str(size), str(maxstack)], timeout=30 + per_case_timeout * 0.05 * (b - i) + per_case_timeout)
+                if rc != 0:
+                    status = "crash"
+            except ToolFailure as e:
+                status, out = "hang", ""
+            os.remove(fin)
+            last_start, last_done = -1, -1
+            for line in out.splitlines():
+                if line.startswith("start "):
+                    last_start = int(line.split()[1])
+                elif line.startswith("done "):
+                    parts = line.split(" ", 3)
+                    last_done = int(parts[1])
+                    if len(parts) > 3 and parts[3] != '""':
+                        problems.append((i + last_done, "panic", parts[3]))
+            if status == "ok" and last_done == b - i - 1:
+                return
+            if status == "hang" and last_start < 0:
+                # output lost with the timeout: isolate one case at a time
+                for j in range(i, b):
+                    f1 = sc.path("pump1-%d.in" % j)
+                    write_ndjson(f1, [cases[j]])
+                    try:
+                        rc, o = run([vh, cmd, f1, str(size), str(maxstack)], timeout=per_case_timeout)
+                        if rc != 0:
+                            problems.append((j, "crash", o[-600:]))
+                    except ToolFailure:
+                        problems.append((j, "hang", ""))
+                    os.remove(f1)
+                return
+            culprit = i + max(last_start, 0)
+            problems.append((culprit, status, out[-600:]))
+            i = culprit + 1
+
+    with ThreadPoolExecutor(max_workers=nchunks) as ex:
+        list(ex.map(work, range(nchunks)))
+    return problems
+
+
+def pump_cases_from(exported):
+    seen = set()
+    out = []
+    for c in exported:
+        s = c["in"]
+        if not s:
+            continue
+        for pre, rp in ((s[:-1], s[-1:]), (s[:-2], s[-2:]) if len(s) >= 2 else (None, None), ([], s)):
+            if rp is None or not rp:
+                continue
+            key = (bytes(pre), bytes(rp))
+            if key not in seen:
+                seen.add(key)
+                out.append({"pre": pre, "rep": rp})
+    return out
+
+
+@check("C02")
+def c02(tier, sc):
+    rep = Report("C02", tier, "model_checking")
+    vh = build_harness(sc)
+    tfile, _ = gen_tables(sc, vh)
+    d = stage_specs(sc, "c02", [tfile])
+    big = tier == "thorough"
+    S = vgen.b
+    # (1) model: every state of the tokenizer x classifier over all short inputs satisfies the
+    # totality invariants; every enumerated input is then given to the real IsXSS
+    beh = h5_export(sc, d, rep, tier, invs=H5_INVS)
+    inputs = list(vgen.dedup(b["in"] for b in beh))
+    # (2) every construct cut at every offset, mutations, fragment walks
+    extra = xss_inputs(tier, "c02")
+    allin = list(vgen.dedup(inputs + extra))
+    res = api_all(sc, vh, allin)
+    for x, r in zip(allin, res):
+        if r is None or "crash" in r:
+            rep.violation("IsXSS crashed the process on %r: %s" % (show(x), (r or {}).get("crash", "")[-300:]), {"kind": "xss.total", "a": x, "how": "crash"})
+        elif "hang" in r:
+            rep.violation("IsXSS did not return on %r" % show(x), {"kind": "xss.total", "a": x, "how": "hang"})
+        elif r.get("panic"):
+            rep.violation("IsXSS panicked on %r: %s" % (show(x), r["panic"]), {"kind": "xss.total", "a": x, "how": "panic"})
+    rep.part("real.short", from_model=len(inputs), constructs_cut_mutations_walks=len(extra), evaluated=len(allin))
+    # (3) pumping: opener x every byte and byte pair; the model bounds the call depth for k = 8,
+    # the real code runs on the pumped input with a small goroutine stack limit
+    sig = S("<>/='\"`!-?%[]\x00 a&#;x1")
+    openers = [S(""), S("<"), S("<a"), S("<a "), S("<a b"), S("<a b="), S("<a b='"), S('<a b="'), S("<a b=`"), S("</"), S("<!"),
+               S("<!--"), S("<![CDATA["), S("<%"), S("<?"), S("<a b='c'"), S("<a/")]
+    exported = xss_props(sc, d, rep, "pump", "pump", sig, 2, prefixes=openers)
+    cases = pump_cases_from(exported)
+    size = (1 << 20) if big else (64 << 10)
+    maxstack = (16 << 20) if big else (2 << 20)
+    problems = run_pumps(sc, vh, "xss-pump", cases, size, maxstack)
+    for idx, how, detail in problems:
+        c = cases[idx]
+        rep.violation("IsXSS %s on %r + %r repeated to %d bytes (stack limit %d): %s" % (
+            how, show(c["pre"]), show(c["rep"]), size, maxstack, detail[-300:]),
+            {"kind": "xss.pump", "pre": c["pre"], "rep": c["rep"], "size": size, "maxstack": maxstack, "how": how})
+    rep.part("real.pump", cases=len(cases), size=size, maxstack=maxstack, problems=len(problems))
+    rep.cov["traces_validated_against_impl"] = len(allin) + len(cases)
+    rep.cov["evaluations"] = len(allin) + len(cases)
+    for x in allin[7000:7003]:
+        rep.sample(show(x))
+    for c in cases[500:502]:
+        rep.sample({"pump_prefix": show(c["pre"]), "repeated": show(c["rep"]), "bytes": size})
+    rep.assumptions += ["a VIOLATION is only a real panic, fatal error (stack exhaustion) or time-out of the real IsXSS",
+                        "stack exhaustion is provoked with debug.SetMaxStack(%d) on %d-byte inputs" % (maxstack, size)]
+    return rep.finish()
+
+
+# ---------------------------------------------------------------------------
+# C19 / C04  generators (XssGen)
+
+def xss_gen(sc, d, rep, name, mode, alphabet=(97,), maxlen=0, templates=(), timeout=3000):
+    res = vlib.tlc_mc(sc, d, "XssGen", "XG_" + name, {
+        "Alphabet": tla_set(alphabet), "MaxLen": maxlen,
+        "Templates": "{" + ", ".join(tla_seq(t) for t in templates) + "}",
+        "Mode": '"%s"' % mode, "DoExport": "TRUE"},
+        invariants=["Prop", "Export"], extra=["-continue"], timeout=timeout)
+    if "states generated" not in res.out:
+        raise ToolFailure("TLC failed on XssGen/%s:\n%s" % (name, res.out[-3000:]))
+    rep.add_tlc("XssGen/" + name, res)
+    got = res.printed()
+    nviol = len(re.findall(r"Invariant Prop is violated", res.out))
+    rep.part("XssGen/" + name, mode=mode, cases=len(got), model_counterexamples=nviol)
+    if nviol:
+        rep.notes.append("model_counterexample: XssGen/%s Prop violated on the specification in %d states" % (name, nviol))
+    return got
+
+
+def decoder_ladders():
+    S = vgen.b
+    out = []
+    for v in (1048830, 1048831, 1048832, 1048575, 1114111, 1114112, 10488310, 16777215, 4294967361, 18446744073709551681):
+        for lead in ("", "0", "0000"):
+            for tail in ("", ";", ";x", "x", "g", "&"):
+                out.append(S("&#%s%d%s" % (lead, v, tail)))
+                out.append(S("&#x%s%x%s" % (lead, v, tail)))
+                out.append(S("&#X%s%X%s" % (lead, v, tail)))
+    out += [S("&#x10000000000000041;"), S("&#x100000041;"), S("&#4294967361;"), S("&#x0000000000000000000000041;"),
+            S("&#00000000000000000000000065;"), S("&#65"), S("&#x41"), S("&#;"), S("&#x;"), S("&#xg"), S("&#a")]
+    return list(vgen.dedup(out))
+
+
+@check("C19")
+def c19(tier, sc):
+    rep = Report("C19", tier, "model_checking")
+    vh = build_harness(sc)
+    tfile, jfile = gen_tables(sc, vh)
+    d = stage_specs(sc, "c19", [tfile])
+    big = tier == "thorough"
+    S = vgen.b
+    # (1) decoder contract: operational decoder = declarative reference value (model), real decoder = model
+    dec = xss_gen(sc, d, rep, "dec", "dec", S("&#xX;019aFgj"), 6 if big else 5, templates=decoder_ladders())
+    res = vlib.harness_map(sc, vh, "xss-pred", [{"f": "dec", "in": c["in"]} for c in dec])
+    nd = 0
+    for c, r in zip(dec, res):
+        if r is None or "crash" in r or "hang" in r or "panic" in r:
+            rep.violation("decoder failed on %r: %s" % (show(c["in"]), r), {"kind": "xss.dec", "a": c["in"], "expect": c["r"]})
+            continue
+        nd += 1
+        if r["r"] != c["r"]:
+            rep.violation("decode(%r) = %s, the reference at the head of the string means %s (value, bytes consumed)" % (
+                show(c["in"]), r["r"], c["r"]), {"kind": "xss.dec", "a": c["in"], "expect": c["r"], "impl": r["r"]})
+    rep.part("dec.real", compared=nd)
+    # (2) script-capable schemes under every encoding
+    url = xss_gen(sc, d, rep, "url", "url")
+    base = json.load(open(os.path.join(vlib.VERIF, "baseline", "baseline.json")))
+    urlattrs = [a["name"] for a in base["attrs"] if a["type"] == 2]
+    res = vlib.harness_map(sc, vh, "xss-pred", [{"f": "url", "in": c["in"]} for c in url])
+    nu = 0
+    for c, r in zip(url, res):
+        if bad_result(r):
+            continue
+        nu += 1
+        if r["r"] != [1]:
+            rep.violation("isBlackURL(%r) = false (family %s)" % (show(c["in"]), c["fam"]), {"kind": "xss.url", "a": c["in"], "fam": c["fam"]})
+    # through the public API: <a ATTR="v">
+    r0 = vgen.rng("c19")
+    vecs = []
+    for c in url:
+        vecs.append((S('<a href="') + c["in"] + S('">'), c, "href"))
+    for a in urlattrs:
+        for c in r0.sample(url, 400 if big else 60):
+            nm = [b + 32 if 65 <= b <= 90 else b for b in a]
+            vecs.append((S("<a ") + nm + S('="') + c["in"] + S('">'), c, vlib.bstr(a)))
+    res = api_all(sc, vh, [v[0] for v in vecs])
+    nv = 0
+    for (v, c, a), r in zip(vecs, res):
+        if bad_result(r):
+            continue
+        nv += 1
+        if not r["xss"]:
+            rep.violation("IsXSS(%r) = false: scheme not recognised through encoding (family %s, attribute %s)" % (show(v), c["fam"], a),
+                          {"kind": "xss.vec", "a": v, "fam": "url." + c["fam"]})
+    rep.part("url.real", isBlackURL=nu, through_IsXSS=nv, url_attributes=len(urlattrs))
+    rep.cov["traces_validated_against_impl"] = nd + nu + nv
+    rep.cov["evaluations"] = nd + nu + nv
+    for c in dec[9000:9002]:
+        rep.sample({"decode": show(c["in"]), "value_consumed": c["r"]})
+    for c in url[3000:3003]:
+        rep.sample({"url_value": show(c["in"]), "family": c["fam"]})
+    rep.assumptions += ["VerifHTMLDecode / VerifIsBlackURL call htmlDecodeByteAt / isBlackURL directly"]
+    return rep.finish()
+
+
+@check("C04")
+def c04(tier, sc):
+    rep = Report("C04", tier, "model_checking")
+    vh = build_harness(sc)
+    tfile, jfile = gen_tables(sc, vh)
+    d = stage_specs(sc, "c04", [tfile])
+    vec = xss_gen(sc, d, rep, "vec", "vec")
+    res = api_all(sc, vh, [c["in"] for c in vec])
+    n = 0
+    fams = {}
+    for c, r in zip(vec, res):
+        if bad_result(r):
+            continue
+        n += 1
+        fams[c["fam"]] = fams.get(c["fam"], 0) + 1
+        if not r["xss"]:
+            rep.violation("IsXSS(%r) = false for a canonical vector of family %s" % (show(c["in"]), c["fam"]),
+                          {"kind": "xss.vec", "a": c["in"], "fam": c["fam"]})
+        elif not c["pred"]:
+            rep.notes.append("model predicts false but the real code detects %r" % show(c["in"]))
+    # URL encodings of C19's generator as vectors, too
+    url = xss_gen(sc, d, rep, "url", "url")
+    S = vgen.b
+    vecs = [S("<a href='") + c["in"] + S("'>") for c in url] + [S("x' src='") + c["in"] for c in url[::7]]
+    res = api_all(sc, vh, vecs)
+    for v, r in zip(vecs, res):
+        if bad_result(r):
+            continue
+        n += 1
+        if not r["xss"]:
+            rep.violation("IsXSS(%r) = false for an encoded-scheme vector" % show(v), {"kind": "xss.vec", "a": v, "fam": "url.enc"})
+    fams["url.enc"] = len(vecs)
+    rep.part("real", vectors=n, per_family=fams)
+    rep.cov["traces_validated_against_impl"] = n
+    rep.cov["evaluations"] = n
+    seen = set()
+    for c in vec:
+        if c["fam"] not in seen and len(seen) < 10:
+            seen.add(c["fam"])
+            rep.sample({"family": c["fam"], "vector": show(c["in"])})
+    rep.assumptions += ["the grammar is generated from the pinned Baseline lists, so removing a shipped entry is noticed",
+                        "obfuscation dimensions (case forms, NUL positions, separators, quoting) are enumerated to the bound written in XssGen.tla"]
+    return rep.finish()
